@@ -172,6 +172,17 @@ TIED = {7: {1: 0}, 8: {2: 0}}
 AGGS = ['usq', 'tern', 'rusq', 'drive', 'usq_arith']
 
 
+def _tern_ok(v):
+  """TernGrad is judged on a vector unless float32 cannot even represent its spread: tiny magnitudes (squares underflow)
+  or |mean| / sigma beyond 2e6 (the deviations are below the float32 resolution of the mean)."""
+  if not any(v):
+    return True
+  if max(abs(x) for x in v) < 1e-10:
+    return False
+  sd = float(np.std(np.array(v, np.float64)))
+  return sd == 0.0 or abs(float(np.mean(np.array(v, np.float64)))) / sd <= 2e6
+
+
 def _ucase(fn, v, L, G, shape=None, bounds=None, kw=1):
   c = {'kind': 'U', 'fn': fn, 'v': [float(x) for x in v], 'L': L, 'G': G, 'shape': shape or [len(v)]}
   if bounds is not None:
@@ -195,9 +206,21 @@ def generate(tier, rng):
     for L in ([2, 3, 100] if tier == 'quick' else levels):
       yield _ucase('usq', v, L, G)
     yield _ucase('bsq', v, 2, G)
-    if max(abs(x) for x in v) >= 1e-10 or not any(v):
-      if not (len(set(v)) > 1 and max(v) - min(v) < 1e-3 * max(abs(x) for x in v)):
-        yield _ucase('tern', v, 2, G)   # (float32 jnp.std underflows / cancels on tiny or nearly constant vectors)
+    if _tern_ok(v):
+      yield _ucase('tern', v, 2, G)
+  # OFFSET data: |mean| >> spread (ratio 1e2 .. 1e6, both signs), mean << spread, constant plus one outlier, all equal
+  zs = [-3, 1, 2, -1, 4, -2, 0, 3]
+  offsets = [(100.0, 0.01), (1000.0, 0.05), (-300.0, 0.02), (1.0, 1e-4), (1e4, 0.01), (-1.0, 1e-6), (100.0, 1.0), (-7.0, 0.07), (1e-3, 1.0)]
+  fams = [[m + sp * z / 4 for z in zs[:n]] for (m, sp) in offsets for n in ((8,) if tier == 'quick' else (8, 3))]
+  fams += [[5.0, 5.0, 5.0, 5.0, 5.5], [7.0] * 9 + [-3.0], [-100.0] * 5 + [-100.5], [100.0] * 4, [-0.25] * 3, [1e4] * 2 + [1e4 + 1]]
+  for i, v in enumerate(fams):
+    v = [float(np.float32(x)) for x in v]
+    for L in ((3, 17) if tier == 'quick' else (2, 3, 5, 17, 100)):
+      yield _ucase('usq', v, L, G)
+    yield _ucase('bsq', v, 2, G)
+    if _tern_ok(v):
+      yield _ucase('tern', v, 2, G)
+    yield {'kind': 'D', 'x': v}
   # on-grid vectors: vmin + k * step for every k
   for L in (2, 3, 5, 9, 17, 4, 7):
     yield _ucase('usq', [-2.0 + 3.0 * k / 8 for k in range(L)] if (L - 1) & (L - 2) == 0 else [float(3 * k) for k in range(L)], L, G)
@@ -327,7 +350,7 @@ def run_U(case):
     two_valued &= bool(np.all(dist <= 1e-6 * scale))
   # one real draw: finite, and one of the two observed levels per coordinate
   real = np.asarray(_call_q(case['fn'], case['v'], case['L'], case['shape'], 12345, case.get('bounds'), case.get('kw', 1)), np.float64)
-  real_ok = bool(np.all(np.minimum(np.abs(real - hi), np.abs(real - lo)) <= 1e-6 * scale))
+  real_ok = bool(np.all(np.minimum(np.minimum(np.abs(real - hi), np.abs(real - lo)), np.abs(real - at0)) <= 1e-6 * scale))
   return {'v': [float(x) for x in v32.astype(np.float64)], 'lo': [float(x) for x in lo], 'hi': [float(x) for x in hi],
           'at0': [float(x) for x in at0], 'gstar': gstar, 'monotone': monotone, 'two_valued': two_valued,
           'finite': bool(np.all(np.isfinite(outs)) and np.all(np.isfinite(real))), 'real_ok': real_ok,
@@ -931,13 +954,16 @@ def _tern_levels(v):
   return out, sigma, s, var
 
 
-def _check_sweep(out, tag, levels, obs, G, scale, u0_tag=None, vmin_f=0.0, vmax_f=0.0):
+EPS32 = 2.0 ** -23
+
+
+def _check_sweep(out, tag, levels, obs, G, scale, u0_tag=None, vmin_f=0.0, vmax_f=0.0, tol=None):
   """levels: per coordinate (lower level l, upper level h, exact P[upper] = t).  The implementation must give h
   for u <= t and l for u > t: observed at u = 1/G (hi), u = (G-1)/G (lo), the largest g with output(g/G) = hi."""
   sl = 1e-3
   for i, ((l, h, t), lo_i, hi_i, g, a0) in enumerate(zip(levels, obs['lo'], obs['hi'], obs['gstar'], obs['at0'])):
     l, h, t = float(l), float(h), float(t)
-    tol = 2e-6 * scale + 1e-30
+    tol = (2e-6 * scale + 1e-30) if tol is None else tol
     is_l = lambda o: abs(o - l) <= tol
     is_h = lambda o: abs(o - h) <= tol
     two = abs(h - l) > tol
@@ -983,18 +1009,27 @@ def _oracle_U(case, obs):
   if fn in ('usq', 'bsq'):
     levels, step, vmin, vmax = _usq_levels(v, L if fn == 'usq' else 2, case.get('bounds'))
     scale = float(max(abs(vmin), abs(vmax), step))
-    _check_sweep(out, '', levels, obs, G, scale, 'bsq.u0-min-becomes-max' if fn == 'bsq' else None, float(vmin), float(vmax))
+    # tolerance relative to the SPREAD (max - min), plus the float32 rounding of a result of the data's magnitude
+    ulp = EPS32 * float(max(abs(vmin), abs(vmax)))          # ~1.2 ulp of the data's magnitude
+    utol = 2e-6 * float(max(vmax - vmin, step)) + ulp + 1e-30
+    if 0 < float(step) < 4 * ulp:
+      utol += float(step) + ulp      # the grid is finer than float32 can resolve at this offset: within one step of a neighbour
+    _check_sweep(out, '', levels, obs, G, scale, 'bsq.u0-min-becomes-max' if fn == 'bsq' else None, float(vmin), float(vmax), tol=utol)
     # consequences stated by the property: in range, error <= one step, identity on grid / constant / zero vectors
     for x, lo_i, hi_i, (l, h, t) in zip([] if case.get('bounds') else v, obs['lo'], obs['hi'], levels):
-      tol = 2e-6 * scale + 1e-30
+      tol = utol
       for o in (lo_i, hi_i):
         if not (float(vmin) - tol <= o <= float(vmax) + tol) or abs(o - x) > float(step) + tol:
           out.append(('range-or-step', f'output {o} for input {x}: outside [min,max] or more than one grid step away'))
       if t == 0 and (abs(lo_i - x) > tol or abs(hi_i - x) > tol):
         out.append(('identity', f'value {x} already on the grid / constant vector was changed to {lo_i} / {hi_i}'))
   else:
+    # float64 reference of the documented definition: sigma = population std of the float32 data (exact), clip at 2.5 sigma
     levels, sigma, s, var = _tern_levels(v)
-    _check_sweep(out, 'tern.', levels, obs, G, max(s, 1e-30))
+    mean_abs = abs(sum(float(x) for x in v) / len(v))
+    # tolerance relative to the spread: the two-pass float32 std of data with |mean| >> sigma is accurate to ~eps*|mean|/sigma
+    rel = 2e-6 + (0.1 * EPS32 * mean_abs / sigma if sigma > 0 else 0.0)
+    _check_sweep(out, 'tern.', levels, obs, G, max(s, 1e-30), tol=s * rel + 1e-30)
   return _dedup(out)
 
 
